@@ -120,6 +120,7 @@ async def gate(label: str, owner: Any = None) -> None:
     h.gate_seq += 1
     g = Gate(label, fut, h.gate_seq, owner)
     h.gates.append(g)
+    h.max_gates = max(h.max_gates, len(h.gates))
     try:
         await fut
     finally:
@@ -155,6 +156,7 @@ class Harness:
         self.loop = loop
         self.gates: list[Gate] = []
         self.gate_seq = 0
+        self.max_gates = 0
         self.runners: list[Any] = []
         self.published: list[Event] = []
         self.ticks: list[Any] = []
@@ -302,6 +304,7 @@ class RunConfig:
     allow_time: bool = True
     time_depth: int = 1  # how many distinct future deadlines may be jumped to at once
     pair_release: bool = False  # also offer releasing two gates in the same macro-step
+    pair_time: bool = False  # also offer "timer fires and a gate is released in the same loop iteration"
     stop_when: Callable[["Harness"], bool] | None = None
     on_quiescent: list[Callable[["Harness"], None]] = field(default_factory=list)
     state_digest: Callable[["Harness"], str] | None = None
@@ -382,6 +385,18 @@ class EngineExec:
                 nd = len(self.loop.timer_deadlines())
                 for k in range(min(nd, self.cfg.time_depth)):
                     acts.append(Action(f"time{k}", (lambda k=k: self.loop.fire_timers(k))))
+        if self.cfg.pair_time and self.cfg.allow_time and gates and self.loop.has_timers():
+            for g in gates:
+                def _gt(g: Gate = g) -> None:
+                    g.fut.set_result(None)
+                    self.loop.fire_timers(0)
+
+                def _tg(g: Gate = g) -> None:
+                    self.loop.fire_timers(0)
+                    g.fut.set_result(None)
+
+                acts.append(Action(f"rel:{g.label}+time0", _gt))
+                acts.append(Action(f"time0+rel:{g.label}", _tg))
         if self.cfg.pair_release and len(gates) >= 2:
             for i in range(len(gates)):
                 for j in range(len(gates)):
